@@ -7,7 +7,7 @@ From HV Require Import Base.Prelude Conc.Lockset Conc.LocksetProofs.
 
 (* The lockset criterion is sound: in the interleaving semantics (any number of threads, any
    schedule; an access begins by acquiring its locks with RWMutex/guard compatibility), a
-   table accepted by [race_free] admits no state with two threads inside conflicting accesses. *)
+   table accepted by [race_free] has no reachable state with two threads inside conflicting accesses. *)
 Theorem lockset_sound : forall tbl, race_free tbl = true ->
   forall n tr c', Forall (ev_in_table tbl) tr -> lrun (repeat None n) tr = Some c' ->
   forall i j a b, i <> j -> nth_error c' i = Some (Some a) -> nth_error c' j = Some (Some b) ->
